@@ -265,6 +265,18 @@ def _py_eq(a, b):
         return False
 
 
+# the error codes of OCPP-J 1.6 / 2.0.1 (both spellings of the two misspelt ones) and the exception each stands for
+STANDARD_ERROR_CODES = ["NotImplemented", "NotSupported", "InternalError", "ProtocolError", "SecurityError", "FormatViolation",
+                        "FormationViolation", "PropertyConstraintViolation", "OccurenceConstraintViolation",
+                        "OccurrenceConstraintViolation", "TypeConstraintViolation", "GenericError"]
+
+
+def expected_error_class(code):
+    if not isinstance(code, str) or code not in STANDARD_ERROR_CODES:
+        return "UnknownCallErrorCodeError"
+    return code if code.endswith("Error") else code + "Error"
+
+
 def c02(version, routes, ops, timeout, res):
     bad = []
     ids = _caller_ids(ops)
@@ -299,6 +311,15 @@ def c02(version, routes, ops, timeout, res):
             if not ok:
                 bad.append(("foreign-result:%s" % jkey(uid)[:40],
                             "caller %d (id %r) returned %r although no CALLRESULT with its id carries that payload" % (k, uid, detail)))
+        written = any(isinstance(fr, list) and fr and fr[0] == 2 and jkey(fr[1]) == jkey(uid) for (_, fr) in writes)
+        if kind in ("ocpp", "exc") and k in uniq and written and len(mine) == 1 and mine[0][0] == 4:
+            # the request was valid (it was written) and the only frame with this id is one CALLERROR:
+            # the error raised must be the class of that code
+            cls = detail[0] if kind == "ocpp" else str(detail).split(":")[0]
+            if expected_error_class(mine[0][2]) != cls:
+                bad.append(("wrong-error:%s:%s" % (cls, jkey(uid)[:30]),
+                            "caller %d (id %r) raised %s although the CALLERRORs with its id carry the code(s) %r" % (
+                                k, uid, cls, [fr[2] for fr in mine if fr[0] == 4])))
         if kind == "none" and not any(fr[0] == 4 for fr in mine):
             bad.append(("foreign-error:%s" % jkey(uid)[:40], "caller %d (id %r) got a CALLERROR outcome without a CALLERROR of its id" % (k, uid)))
         if kind == "timeout" and k in uniq:
